@@ -444,4 +444,35 @@ example : (Shape.one (.rect "4.5" "1.8" "-1.125" ⟨"35.6455", "2.125", none⟩)
   · exact ⟨rfl, fun _ => ⟨by decide, fun h => absurd h (by decide)⟩⟩
   · exact ⟨rfl, fun _ => ⟨fun _ => rfl, fun _ => rfl⟩⟩
 
+/-- the file configuration of the tree under test, cut down to two countries -/
+def realFileCfg (d : Nat) : FileCfg :=
+  ⟨⟨d, [], []⟩, realClasses, ["DEU", "USA", "ZAM"], [("DEU", (["274", "206"], some "274")), ("ZAM", (["274", "206"], some "274")),
+    ("USA", (["R2-1"], some "R2-1"))], "2026-09-29"⟩
+
+/-- a file with a location (geo transformation, environment at 07:05), two tags in enumeration order and an empty body meets
+    the hypotheses of `C01_xml_roundtrip_whole_file` and `C01_file_norm_close_full` -/
+example : let f : File := ⟨⟨"0.1", some "A. Author", some "TUM", some "handcrafted", "DEU_Muc-3_1_T-1"⟩,
+      some ⟨2867714, "48.262333", "11.668775", some ⟨"EPSG:4326", some ⟨"1.5", "-2.0", "0.01", "1.0"⟩⟩,
+        some ⟨7, 5, "morning", "fog", "wet"⟩⟩, ["urban", "intersection"], ⟨[], [], [], [], [], [], [], [], []⟩⟩
+    okFile (realFileCfg 4) f ∧ f.Strict (realFileCfg 4) := by
+  intro f
+  constructor
+  · refine ⟨?_, trivial, ?_⟩
+    · intro v hv
+      cases hv
+      refine ⟨trivial, trivial, trivial, ?_, ?_⟩
+      · intro g hg
+        cases hg
+        exact ⟨⟨trivial, fun a ha => by cases ha; exact ⟨trivial, trivial, trivial, trivial⟩⟩, rfl⟩
+      · intro e he
+        cases he
+        refine ⟨⟨by decide, by decide⟩, ?_, ?_, ?_⟩
+        · show timesOfDay.contains "morning" = true; decide
+        · show weathers.contains "fog" = true; decide
+        · show undergrounds.contains "wet" = true; decide
+    · show (docC _).ok (⟨[], [], [], [], [], [], [], [], []⟩ : Doc)
+      simp [docC, Codec.iso, Codec.pair, Codec.many]
+  · refine ⟨rfl, by decide, ?_⟩
+    constructor <;> intro x hx <;> cases hx
+
 end CR.X
